@@ -166,6 +166,11 @@ pub fn parent(i: u64) -> (r: u64)
     ensures r == spec_parent(i)
 { unimplemented!() }
 
+/// an even index is the leaf (0, index / 2)
+pub proof fn lemma_leaf_index(x: int)
+    requires x >= 0, x % 2 == 0
+    ensures node_index(0, x / 2) == x
+{ assert(p2(0) == 1); assert(p2(1) == 2 * p2(0)); assert((x / 2) * 2 == x); }
 /// every index names a node
 pub proof fn lemma_node_exists(x: int)
     requires x >= 0
